@@ -543,6 +543,7 @@ type stats struct {
 	requests      int
 	authorizedDB  int
 	unauthQueries int
+	skipped       int
 }
 
 // runInstance walks one instance. It returns false if the instance could not be evaluated.
@@ -558,13 +559,14 @@ func runInstance(c *run.Ctx, bin string, cfg instCfg, flt *filter, st *stats, ro
 	// the walk list
 	var targets []*target
 	dupTarget := map[string]bool{}
-	skipped := 0
+	skipped := 0 // routes that cannot be walked (no path template)
 	for _, r := range in.routes {
 		if !r.HasHandler {
 			continue // a sub-router node, not a route
 		}
 		if r.NoTemplate {
 			skipped++
+			st.skipped++
 			c.Undecided("route without a path template cannot be walked")
 			continue
 		}
@@ -1062,6 +1064,60 @@ func sortedKeys[V any](m map[string]V) []string {
 }
 
 // ---------------------------------------------------------------------------------------
+// cross-check of the dump: every path literal the router sources register must be in the
+// table dumped by the matching mode (a route living on a router the walk cannot see would
+// otherwise escape the matrix silently).
+
+var litRe = regexp.MustCompile(`\.(?:HandleFunc|Handle)\(\s*"(/[^"]*)"`)
+
+func sourceLiterals(dirs ...string) []string {
+	out := []string{}
+	for _, d := range dirs {
+		files, _ := filepath.Glob(filepath.Join(repoDir, d, "*.go"))
+		for _, f := range files {
+			if strings.HasSuffix(f, "_test.go") {
+				continue
+			}
+			b, err := os.ReadFile(f)
+			if err != nil {
+				continue
+			}
+			for _, l := range strings.Split(string(b), "\n") {
+				if strings.HasPrefix(strings.TrimSpace(l), "//") {
+					continue
+				}
+				for _, m := range litRe.FindAllStringSubmatch(l, -1) {
+					out = append(out, m[1])
+				}
+			}
+		}
+	}
+	return out
+}
+
+func crossCheck(c *run.Ctx, tables map[string][]route) {
+	check := func(tag string, lits []string) {
+		tb, ok := tables[tag]
+		if !ok {
+			return
+		}
+		have := map[string]bool{}
+		for _, r := range tb {
+			have[r.Template] = true
+		}
+		for _, l := range lits {
+			if have[l] {
+				c.Event("source_route_literals_found_in_dump", 1)
+			} else {
+				c.Undecided("a route literal of the router sources is not in the dumped route table")
+				c.Note(fmt.Sprintf("%s: %q is registered in the sources but not in the dumped table", tag, l))
+			}
+		}
+	}
+	common := sourceLiterals("shared/commonroutes")
+	check("writer/A", append(sourceLiterals("writer/router"), common...))
+	check("reader/A", append(sourceLiterals("reader/router"), common...))
+}
 
 func randWord(c *run.Ctx, stream string, n int) string {
 	const al = "abcdefghijkmnpqrstuvwxyzABCDEFGHJKLMNPQRSTUVWXYZ23456789"
@@ -1116,6 +1172,9 @@ func runAll(c *run.Ctx, flt *filter) {
 			evaluated++
 		}
 	}
+	if flt == nil {
+		crossCheck(c, tables)
+	}
 	c.Event("instances_evaluated", evaluated)
 	c.Event("requests_sent", st.requests)
 	c.Event("authorized_requests_with_db_interaction", st.authorizedDB)
@@ -1131,7 +1190,8 @@ func runAll(c *run.Ctx, flt *filter) {
 	c.Extra("header_classes", nHdr)
 	c.Extra("header_combinations", nCmb)
 	c.Extra("route_table", tables)
-	c.Exhaustive(evaluated == 4 && flt == nil)
+	c.Event("queries_seen_during_unauthenticated_requests", st.unauthQueries)
+	c.Exhaustive(evaluated == 4 && flt == nil && st.skipped == 0)
 	if a, ok := tables["writer/A"]; ok {
 		for i, r := range a {
 			if i < 2 && r.HasHandler {
